@@ -164,7 +164,7 @@ def lean_gate(pid, props_module=None, extra_modules=()):
                 discharged += 1
         res['axioms'] = {n: audit.get(n) for n in names}
     res['discharged'] = discharged
-    hits = leanio.source_scan(leanio.lean_sources())
+    hits = leanio.source_scan(leanio.lean_sources([module] + list(extra_modules)))
     if hits:
         res['ok'] = False
         res['broken'].append('forbidden construct in Lean sources: ' + str(hits[:3]))
